@@ -230,6 +230,7 @@ func (f *LightFamily) Step(n *Node, op Op) StepResult {
 		xp = f.Collect
 	}
 	x := NewExec(xp, func() Case { return mkCase("light", lightPayload{Fam: *f, Hist: hist}) })
+	x.CaseID = histStr(hist)
 	c, md, ok, evals := f.run(x, hist)
 	res := StepResult{Evals: evals}
 	if ok {
